@@ -260,6 +260,9 @@ VWithFieldBroadcast(v, T, new, vals) ==
        \* (left-broadcasting INTO a fixed-size dimension is refused by this version unless its size is 1)
        IF HasRegT(T) THEN May(r) ELSE Ok(r)
 
+\* ak.unzip(ak.zip({a: x, b: x})): both fields read back as x (zip broadcasts to the deepest common level, unzip projects)
+VUnzipLaw(v, T) == IF HasUnion(T) \/ HasStrT(T) THEN Unspec ELSE Ok(VList(<<v, v>>))
+
 \* ak.with_field(ak.zip((x, x, x), depth_limit=1), vals, str(slot)): overwriting an EXISTING slot of a tuple.  After it, reading
 \* that slot gives the value and every other slot reads what it read before (the recorded result names its fields by slot number,
 \* in slot order: whether the result is still a tuple, and in which order it stores the fields, is not judged)
